@@ -195,8 +195,8 @@ pub(crate) mod verif_kani {
         assert!(pframe_ok(&pool, &pre, si, k), "C01.pool_insert_frame (addresses and values of all other live objects unchanged)");
         assert!(pool_wf(&pool), "C01.pool_insert_wf_after");
         kani::cover!(pool.slabs.len() == pre.n + 1);
-        kani::cover!(pool.slabs.len() == pre.n && pool.vacancy_tracker.next_vacancy().is_none());
-        kani::cover!(pre.n > 1 && si == 1);
+        kani::cover!(nslabs == 0 || (pool.slabs.len() == pre.n && pool.vacancy_tracker.next_vacancy().is_none()));
+        kani::cover!(nslabs < 2 || si == 1);
         mem_forget(pool);
     }
 
@@ -226,7 +226,7 @@ pub(crate) mod verif_kani {
         assert!(pool_wf(&pool), "C01.pool_remove_wf_after");
         assert!(pool.is_empty() == (pre.len == 1), "C02.pool_is_empty");
         kani::cover!(pre.occ[i][0] && pre.occ[i][1]);
-        kani::cover!(i > 0 && pool.vacancy_tracker.next_vacancy() == Some(i));
+        kani::cover!(nslabs < 2 || (i > 0 && pool.vacancy_tracker.next_vacancy() == Some(i)));
         mem_forget(pool);
     }
 
@@ -309,33 +309,38 @@ pub(crate) mod verif_kani {
         }
     }
 
-    fn reserve_contract(nslabs: usize) {
+    /// `len` and `add` are concrete per instance: a symbolic number of new slabs makes Vec::extend allocate a
+    /// symbolic-size block, which CBMC cannot handle (memory blow-up). Slab contents stay arbitrary.
+    fn reserve_contract(nslabs: usize, len: usize, add: usize) {
         let mut pool = any_wf_pool::<u32>(nslabs, DropPolicy::MayDropContents);
+        kani::assume(pool.length == len);
+        pool.length = len;
         let pre = psnap(&pool);
-        let add: usize = kani::any();
-        kani::assume(add <= 3);
         pool.reserve(add);
         assert!(pool.capacity() >= pool.len() + add, "C02.reserve_makes_room");
         assert!(pool.len() == pre.len, "C02.reserve_keeps_len");
         assert!(pool.slabs.len() >= pre.n, "C01.reserve_never_removes_slabs");
-        // minimal: no more slabs than needed
         assert!(pool.slabs.len() == pre.n || (pool.slabs.len() - 1) * CAP < pre.len + add, "C02.reserve_minimal_growth");
         assert!(pframe_ok(&pool, &pre, MAXS, CAP), "C01.reserve_frame (all live objects keep address and value)");
         assert!(pool_wf(&pool), "C01.reserve_wf_after");
-        // `add` further inserts do not grow the pool
+        mem_forget(pool);
+    }
+
+    /// After `reserve(add)`, `add` further inserts do not grow the pool (no new slab).
+    fn reserve_then_insert(nslabs: usize, len: usize, add: usize) {
+        let mut pool = any_wf_pool::<u32>(nslabs, DropPolicy::MayDropContents);
+        kani::assume(pool.length == len);
+        pool.length = len;
+        pool.reserve(add);
         let slabs_after = pool.slabs.len();
         let mut t = 0;
-        while t < 3 {
-            if t < add {
-                let v: u32 = kani::any();
-                let _h = unsafe { pool.insert_with_unchecked::<u32, _>(|u| { u.write(v); }) };
-                assert!(pool.slabs.len() == slabs_after, "C02.reserve_then_insert_without_growth");
-            }
+        while t < add {
+            let v: u32 = kani::any();
+            let _h = unsafe { pool.insert_with_unchecked::<u32, _>(|u| { u.write(v); }) };
+            assert!(pool.slabs.len() == slabs_after, "C02.reserve_then_insert_without_growth");
             t += 1;
         }
         assert!(pool_wf(&pool), "C01.reserve_inserts_wf_after");
-        kani::cover!(pool.slabs.len() == pre.n + 2);
-        kani::cover!(pool.slabs.len() == pre.n && add > 0);
         mem_forget(pool);
     }
 
@@ -367,24 +372,24 @@ pub(crate) mod verif_kani {
         assert!(pool.capacity() >= pool.len(), "C02.pool_capacity_ge_len");
         assert!(pframe_ok(&pool, &pre, MAXS, CAP), "C01.shrink_frame (all live objects keep address and value)");
         assert!(pool_wf(&pool), "C01.shrink_wf_after");
-        kani::cover!(n + 2 == pre.n);
+        kani::cover!(nslabs < 2 || n + 2 == pre.n);
         kani::cover!(n == pre.n && n > 0);
         kani::cover!(n == 0 && pre.n > 0);
         mem_forget(pool);
     }
 
-    fn iter_contract(nslabs: usize) {
+    fn iter_contract(nslabs: usize, dir: Option<bool>) {
         let pool = any_wf_pool::<u32>(nslabs, DropPolicy::MayDropContents);
         let mut yielded = [[false; CAP]; MAXS];
         let mut n = 0usize;
         let mut it = pool.iter();
         let total = pool.len();
         let mut step = 0;
-        while step < MAXS * CAP {
-            if step <= nslabs * CAP {
+        while step < nslabs * CAP + 1 {
+            {
                 let remaining = total - n;
                 assert!(it.len() == remaining, "C02.pool_iter_len_is_remaining");
-                let back: bool = kani::any();
+                let back: bool = match dir { Some(b) => b, None => kani::any() };
                 let r = if back { it.next_back() } else { it.next() };
                 if remaining == 0 {
                     assert!(r.is_none(), "C02.pool_iter_none_after_all_yielded");
@@ -428,12 +433,26 @@ pub(crate) mod verif_kani {
         assert!(pool.len() == 0 && pool.is_empty() && pool.capacity() == 0 && pool.slabs.is_empty(), "C02.pool_new_empty");
         assert!(pool.object_layout() == Layout::new::<u32>(), "C01.pool_new_layout");
         assert!(tracker_len(&pool.vacancy_tracker) == 0 && pool.vacancy_tracker.next_vacancy().is_none(), "C01.pool_new_tracker");
+        mem_forget(pool);
     }
 
     macro_rules! inst {
         ($name:ident, $unwind:expr, $body:expr) => {
             #[kani::proof]
             #[kani::unwind($unwind)]
+            fn $name() {
+                $body
+            }
+        };
+    }
+
+    macro_rules! inst_nounwind {
+        ($name:ident, $unwind:expr, $body:expr) => {
+            #[kani::proof]
+            #[kani::unwind($unwind)]
+            #[kani::stub(crate::opaque::slab::catch_unwind, crate::opaque::slab::verif_kani::catch_unwind_stub)]
+            #[kani::stub(crate::opaque::slab::resume_unwind, crate::opaque::slab::verif_kani::resume_unwind_stub)]
+            #[kani::stub(std::thread::panicking, crate::opaque::slab::verif_kani::panicking_stub)]
             fn $name() {
                 $body
             }
@@ -451,13 +470,19 @@ pub(crate) mod verif_kani {
     inst!(pool_remove_drops_once_sees_wf_1slab, 6, remove_drops_once_and_sees_wf_pool(1));
     inst!(pool_remove_drops_once_sees_wf_2slabs, 6, remove_drops_once_and_sees_wf_pool(2));
     inst!(pool_remove_unpin_never_drops_2slabs, 6, remove_unpin_never_drops(2));
-    inst!(pool_drop_drops_each_once_2slabs, 6, drop_pool_drops_each_once(2));
-    inst!(pool_reserve_contract_0slabs, 6, reserve_contract(0));
-    inst!(pool_reserve_contract_1slab, 6, reserve_contract(1));
-    inst!(pool_reserve_contract_2slabs, 6, reserve_contract(2));
-    inst!(pool_shrink_contract_1slab, 6, shrink_contract(1));
-    inst!(pool_shrink_contract_2slabs, 6, shrink_contract(2));
-    inst!(pool_shrink_contract_3slabs, 6, shrink_contract(3));
-    inst!(pool_iter_contract_1slab, 10, iter_contract(1));
-    inst!(pool_iter_contract_2slabs, 10, iter_contract(2));
+    inst_nounwind!(pool_drop_drops_each_once_2slabs, 6, drop_pool_drops_each_once(2));
+    inst!(pool_reserve_contract_0slabs_len0_add1, 6, reserve_contract(0, 0, 1));
+    inst!(pool_reserve_contract_0slabs_len0_add3, 6, reserve_contract(0, 0, 3));
+    inst!(pool_reserve_contract_1slab_len1_add1, 6, reserve_contract(1, 1, 1));
+    inst!(pool_reserve_contract_1slab_len2_add1, 6, reserve_contract(1, 2, 1));
+    inst!(pool_reserve_contract_1slab_len2_add3, 6, reserve_contract(1, 2, 3));
+    inst!(pool_reserve_contract_2slabs_len3_add0, 6, reserve_contract(2, 3, 0));
+    inst!(pool_reserve_contract_2slabs_len3_add2, 6, reserve_contract(2, 3, 2));
+    inst!(pool_reserve_then_insert_1slab_len1_add2, 6, reserve_then_insert(1, 1, 2));
+    inst_nounwind!(pool_shrink_contract_1slab, 6, shrink_contract(1));
+    inst_nounwind!(pool_shrink_contract_2slabs, 6, shrink_contract(2));
+    inst_nounwind!(pool_shrink_contract_3slabs, 6, shrink_contract(3));
+    inst!(pool_iter_contract_1slab, 5, iter_contract(1, None));
+    inst!(pool_iter_contract_2slabs_forward, 7, iter_contract(2, Some(false)));
+    inst!(pool_iter_contract_2slabs_backward, 7, iter_contract(2, Some(true)));
 }
